@@ -15,7 +15,8 @@ RULE = (
     "every string over the 20-character 'nasty' alphabet (incl. NBSP and VT: whitespace to str.isspace() but not to the tokenizer) up to the length bound (bare and inside f-string, "
     "subprocess, call-macro and with-macro carriers), every xonsh/python lexeme sequence of the E-TOK trees, every filling of nine xonsh carriers (help chains, env targets, subprocess words, macro arguments, with-macro headers), every "
     "character-level prefix/deletion/insertion of the corpus, the E-LINE breadth-first search over tokenizer line states, and size families (a run of 30 / 60 / 200 copies of each of 24 fillers inside each of 22 lexical contexts); each is tokenized to exhaustion and parsed in exec "
-    "and eval mode (short ones also through parse_file). Non-trivial = the text is non-empty and reached the parser "
+    "and eval mode (short ones also through parse_file); C10's f-string family (every field form x quote style x {f, rf} x literal parts) with every "
+    "proper prefix of each text; the indentation-unit blocks and the line-separator family of E-LAY. Non-trivial = the text is non-empty and reached the parser "
     "(distinct texts, hashed)."
 )
 BOUND = {
@@ -51,6 +52,12 @@ def units(tier: str) -> list[tuple]:
     us += [("file", "nasty", 2 if tier == "quick" else 3)]
     us += [("eline", 3 if tier == "quick" else 5)]
     us += [("long", i) for i in range(len(LONG_CONTEXTS))]
+    from . import c10
+
+    us += [("fstr", i) for i in range(len(c10.FIELDS))]
+    from ..explore import layout
+
+    us += [u for u in layout.units(tier) if u[4] in ("indent", "sep")]
     return us
 
 
@@ -82,6 +89,26 @@ def cases(unit: tuple):
         u = ("chr", unit[1], "bare", "", unit[2])
         for s in charspace.expand(u):
             yield {"file": s}
+    elif kind == "fstr":
+        # C10's f-string family (field form x quote style x prefix x literal parts) and every proper prefix of each text
+        from . import c10
+
+        f0 = c10.FIELDS[unit[1]]
+        seen: set[str] = set()
+        for pre in ("f", "rf"):
+            for q in c10.QUOTES:
+                for l1 in c10.LITERALS[:4]:
+                    for l2 in c10.LITERALS[:4]:
+                        t = f"{pre}{q}{c10._lit(l1, q)}{f0}{c10._lit(l2, q)}{q}\n"
+                        for k in range(len(pre) + len(q), len(t) + 1):
+                            if t[:k] not in seen:
+                                seen.add(t[:k])
+                                yield t[:k]
+    elif kind == "lay":
+        from ..explore import layout
+
+        for _, t in layout.expand(unit):
+            yield t
     elif kind == "long":
         ctx = LONG_CONTEXTS[unit[1]]
         for f in LONG_FILLERS:
